@@ -718,9 +718,19 @@ func genConcPlan(r *rand.Rand, tier string) *vfPlan {
 		group[i].Par = 1
 	}
 	p.Steps = append(p.Steps, group...)
-	// the tape: random choices; the scheduler normalises it to the choices taken
+	// the tape: random choices; the scheduler normalises it to the choices taken.  A few entries (>= 100) let
+	// simulated time pass at that decision: one request stalls for seconds in the middle while the other completes
+	oneTime := len(group) >= 2 && (group[0].Op == "totp" || group[0].Op == "bootstrapotp" || group[0].Op == "u2fsignresp") && group[0].Op == group[1].Op
+	stall := oneTime && chance(r, 0.5)
 	for i := 0; i < 40; i++ {
-		p.Tape = append(p.Tape, r.IntN(6))
+		v := r.IntN(6)
+		if stall && chance(r, 0.15) {
+			v += 100
+		}
+		p.Tape = append(p.Tape, v)
+	}
+	if stall {
+		p.NoPost = true // the sequential reference runs see no stall: only the one-time-value and race oracles judge this run
 	}
 	return p
 }
